@@ -147,7 +147,8 @@ Qed.
 Lemma gc_dry_count i n s' n2 s2 :
   gc i = GcOk n s' ->
   gc {| g_store := g_store i; g_alg := g_alg i; g_ro := g_ro i; g_used := g_used i;
-        g_trees := g_trees i; g_shallow := g_shallow i; g_dry := negb (g_dry i) |} = GcOk n2 s2 ->
+        g_trees := g_trees i; g_cache_alg := g_cache_alg i; g_shallow := g_shallow i;
+        g_dry := negb (g_dry i) |} = GcOk n2 s2 ->
   n = n2.
 Proof.
   unfold gc; cbn. destruct (g_ro i); [discriminate|].
@@ -161,7 +162,7 @@ Qed.
    succeed, give the same count and the same store. *)
 Definition with_used (i : gc_in) (u : list (list N * oid)) : gc_in :=
   {| g_store := g_store i; g_alg := g_alg i; g_ro := g_ro i; g_used := u;
-     g_trees := g_trees i; g_shallow := g_shallow i; g_dry := g_dry i |}.
+     g_trees := g_trees i; g_cache_alg := g_cache_alg i; g_shallow := g_shallow i; g_dry := g_dry i |}.
 
 Lemma filter_ext_bool {A} (p q : A -> bool) (l : list A) :
   (forall x, p x = true <-> q x = true) -> filter p l = filter q l.
@@ -257,7 +258,7 @@ Qed.
    size is sound with respect to the model, and there is no threshold in it. *)
 Definition with_store (i : gc_in) (s : list oid) : gc_in :=
   {| g_store := s; g_alg := g_alg i; g_ro := g_ro i; g_used := g_used i;
-     g_trees := g_trees i; g_shallow := g_shallow i; g_dry := g_dry i |}.
+     g_trees := g_trees i; g_cache_alg := g_cache_alg i; g_shallow := g_shallow i; g_dry := g_dry i |}.
 
 Lemma gc_store_app i s1 s2 n s' :
   g_store i = s1 ++ s2 -> gc i = GcOk n s' ->
@@ -272,13 +273,46 @@ Proof.
   rewrite !filter_app, app_length. split; [lia|]. now destruct (g_dry i).
 Qed.
 
+(* --- the algorithm of cache_odb does not matter ---
+   Which identifiers count as used is decided by the algorithm of the store being collected;
+   cache_odb (omitted / same algorithm / another algorithm) only supplies the listings.  Two
+   inputs that differ only in the cache's algorithm name have the same result, and an id
+   whose name is the cache's but not the store's algorithm protects nothing (gc_other_alg). *)
+Definition with_cache_alg (i : gc_in) (a : option (list N)) : gc_in :=
+  {| g_store := g_store i; g_alg := g_alg i; g_ro := g_ro i; g_used := g_used i;
+     g_trees := g_trees i; g_cache_alg := a; g_shallow := g_shallow i; g_dry := g_dry i |}.
+
+Lemma gc_cache_alg_irrelevant i a : gc (with_cache_alg i a) = gc i.
+Proof. reflexivity. Qed.
+
+(* the used ids of another algorithm than the collected store's (in particular the cache's)
+   can be dropped from `used` without changing anything, error kinds included *)
+Lemma used_hashes_other_alg alg shallow ld used : forall acc,
+  used_hashes alg shallow ld (filter (fun p => list_N_eqb (fst p) alg) used) acc
+  = used_hashes alg shallow ld used acc.
+Proof.
+  induction used as [|[name value] r IH]; intros acc; [reflexivity|].
+  cbn [filter fst]. destruct (list_N_eqb name alg) eqn:En.
+  - cbn [used_hashes]. rewrite En. cbn [negb].
+    destruct (is_dir_oid value && negb shallow); [|apply IH].
+    destruct (ld value); [apply IH|reflexivity|reflexivity].
+  - cbn [used_hashes]. rewrite En. cbn [negb]. apply IH.
+Qed.
+
+Lemma gc_other_alg i :
+  gc (with_used i (filter (fun p => list_N_eqb (fst p) (g_alg i)) (g_used i))) = gc i.
+Proof.
+  unfold gc. cbn [with_used g_store g_alg g_ro g_used g_trees g_shallow g_dry].
+  now rewrite used_hashes_other_alg.
+Qed.
+
 (* non-vacuity: a concrete store where everything interesting happens *)
 Definition ex_dir : oid := [97; 97] ++ dot_dir.
 Definition ex_in (shallow dry : bool) : gc_in :=
   {| g_store := [[1;1]; [2;2]; ex_dir; [3;3]; [4;4] ++ dot_dir];
      g_alg := [109]; g_ro := false;
      g_used := [([109], ex_dir); ([120], [3;3]); ([109], [9;9])];
-     g_trees := [(ex_dir, Some [[1;1]; [7;7]])];
+     g_trees := [(ex_dir, Some [[1;1]; [7;7]])]; g_cache_alg := None;
      g_shallow := shallow; g_dry := dry |}.
 Example gc_example_expand : gc (ex_in false false) = GcOk 3 [[1;1]; ex_dir].
 Proof. vm_compute. reflexivity. Qed.
@@ -315,3 +349,10 @@ Qed.
 Example oid_hex32_example : oid_hex32 0x0016fe09121c5befad0e28f817995156 =
   [48;48;49;54;102;101;48;57;49;50;49;99;53;98;101;102;97;100;48;101;50;56;102;56;49;55;57;57;53;49;53;54].
 Proof. vm_compute. reflexivity. Qed.
+
+(* mixed algorithms: an md5-dos2unix ("x") cache beside an "m" store; the id of the cache's
+   algorithm protects nothing, the ids of the store's algorithm do *)
+Example gc_example_cache_alg :
+  gc (with_cache_alg (ex_in false false) (Some [120])) = GcOk 3 [[1;1]; ex_dir] /\
+  filter (fun p => list_N_eqb (fst p) [109]) (g_used (ex_in false false)) = [([109], ex_dir); ([109], [9;9])].
+Proof. split; vm_compute; reflexivity. Qed.
